@@ -86,6 +86,40 @@ Bytes capacity_edge(Rng &rng, int level, bool whole) {
   return b;
 }
 
+// --sequential edge: at an input-chunk boundary (a multiple of level*100000 input bytes) a run of equal bytes is in
+// progress and the block under construction holds capacity-1+e run-length-encoded bytes (e in -2..+1), so the resumed
+// collector meets "one free slot left" exactly while finishing a run that started in the previous input buffer.
+Bytes seq_edge(Rng &rng, int level) {
+  const long chunk = (long)level * 100000, cap = chunk;
+  long k = 2 + (long)rng.below(2);
+  long e = (long)rng.below(4) - 2;
+  long r0 = 1 + (long)rng.below(258), r = -1, A = -1;
+  for (long t = 0; t < 258; t++) {
+    long rr = 1 + (r0 - 1 + t) % 258;
+    long num = (k - 1) * chunk + 1 - e - rr + std::min(rr, 4l);
+    if (num >= 0 && num % 254 == 0) { r = rr; A = num / 254; break; }
+  }
+  if (r < 0) return capacity_edge(rng, level, true);
+  long bl = cap - 1 + e - std::min(r, 4l) - 5 * A;
+  if (bl < 0) return capacity_edge(rng, level, true);
+  Bytes b;
+  unsigned char x = (unsigned char)rng.below(256);
+  // interleave the A long runs and the bl literal bytes in random order (the totals are what matters)
+  long ra = A, rl = bl; int alt = 0; unsigned lit = 0;
+  while (ra > 0 || rl > 0) {
+    bool take_run = ra > 0 && (rl == 0 || rng.below((uint64_t)(ra + rl / 60 + 1)) < (uint64_t)ra);
+    if (take_run) { b.append(259, (char)(x + 1 + (alt++ & 1))); ra--; }
+    else { long m = std::min<long>(rl, 1 + (long)rng.below(200)); for (long i = 0; i < m; i++) b.push_back((char)(x + 3 + (lit++ & 1))); rl -= m; }
+  }
+  // fix possible accidental runs at the joints: literals use values x+3..x+6, runs x+1/x+2, the edge run x+9
+  b.append((size_t)r, (char)(x + 9));
+  static const long more[] = {0, 1, 2, 3, 5, 100, 254, 255, 300};
+  b.append((size_t)more[rng.below(9)], (char)(x + 9));
+  size_t tail = rng.below(3) == 0 ? 0 : rng.below(3000);      // a third of the time the input ends inside the run
+  for (size_t i = 0; i < tail; i++) b.push_back((char)(x + 11 + rng.below(3)));
+  return b;
+}
+
 Bytes input(Rng &rng, int level, size_t max_size, std::string *desc) {
   size_t chunk = (size_t)level * 100000;
   int kind = (int)rng.below(16);
@@ -103,7 +137,7 @@ Bytes input(Rng &rng, int level, size_t max_size, std::string *desc) {
   case 0: b = Bytes(); name = "empty"; break;
   case 1: b = tiny(rng); name = "tiny"; break;
   case 2: case 3: b = runs_around_limits(rng, n, 1 + (unsigned)rng.below(3)); name = "runs"; break;
-  case 4: b = capacity_edge(rng, level, rng.below(2)); name = "capacity-edge"; break;
+  case 4: if (rng.below(2)) { b = capacity_edge(rng, level, rng.below(2)); name = "capacity-edge"; } else { b = seq_edge(rng, level); name = "sequential-edge"; } break;
   case 5: b = fibonacci(rng, n); name = "fibonacci"; break;
   case 6: b = periodic(rng, n); name = "periodic"; break;
   case 7: b = random_bytes(rng, n, 256); name = "all-bytes-random"; break;
